@@ -173,7 +173,7 @@ class MDANewtonRaphson(BaseMDARoot):
         super()._execute()
 
         while True:
-            local_data_before_execution = self.io.data.copy()
+            local_data_before_execution = self._get_local_data_before_execution()
             input_couplings = self.get_current_resolved_variables_vector()
 
             self._execute_disciplines_and_update_local_data()
